@@ -170,7 +170,21 @@ func coreMain(args []string) int {
 		r.reset()
 		out.emit(map[string]any{"op": "Reset"})
 		for _, ev := range beh {
+			// a call that does not come back within 30 s is recorded as such (the model rejects the line) and
+			// the process ends: whatever it holds cannot be released from outside
+			done := make(chan struct{})
+			go func(ev coreEvent) {
+				select {
+				case <-done:
+				case <-time.After(30 * time.Second):
+					out.emit(map[string]any{"op": ev.Op, "l": ev.L, "k": ev.K, "a": ev.A, "b": ev.B, "ret": -1,
+						"outcome": "hang: the call (or an observation after it) did not return within 30 s"})
+					out.close()
+					os.Exit(0)
+				}
+			}(ev)
 			rec := r.exec(ev)
+			close(done)
 			out.emit(rec)
 		}
 	}
@@ -191,6 +205,7 @@ func (r *coreRun) reset() {
 	r.ids = map[*slog.Entry]int{d: 1}
 	r.restoreF, r.restoreL = nil, nil
 	r.handlers = nil
+	resetFileWriters()
 	sink.reset()
 }
 
@@ -421,6 +436,7 @@ func (r *coreRun) exec(ev coreEvent) (rec map[string]any) {
 	}
 	ret := 0
 	okReg, isReg := false, false
+	var closedW []int
 	switch ev.Op {
 	case "Set":
 		ret = r.idOf(r.set(l, ev.K, ev.A, ev.B))
@@ -448,6 +464,18 @@ func (r *coreRun) exec(ev coreEvent) (rec map[string]any) {
 		is.SetDebugMode(ev.A == 1)
 	case "VrbMode":
 		is.SetVerboseMode(ev.A == 1)
+	case "CloseW":
+		closed := []int{}
+		if w := l.GetWriterBy(slog.Level(ev.A)); w != nil {
+			takeAll()
+			_ = w.Close()
+			for _, e := range takeAll() {
+				if e.K == "c" {
+					closed = append(closed, e.W)
+				}
+			}
+		}
+		closedW = closed
 	case "MkHandler":
 		o := r.sc.HandlerOpts[ev.A-1]
 		r.handlers = append(r.handlers, slog.NewSlogHandler(l, &slog.HandlerOptions{NoColor: o.NoColor, NoSource: o.NoSource, JSON: o.JSON, Level: slog.Level(o.Level)}))
@@ -513,6 +541,9 @@ func (r *coreRun) exec(ev coreEvent) (rec map[string]any) {
 	rec["ret"] = ret
 	if isReg {
 		rec["ok"] = okReg
+	}
+	if closedW != nil {
+		rec["closed"] = closedW
 	}
 	rec["dbg"] = is.DebugMode()
 	rec["deflvl"] = int(slog.GetLevel())
